@@ -362,7 +362,25 @@ func (p *sessionPort) blocking(name string, f func() []string, ticker bool) []st
 	default:
 	}
 	p.dead = name
+	if name != "close" && p.atGate() {
+		// another goroutine is stalled inside conn.Write by the script (no deadline applies) and holds the lock this call
+		// waits for: the call is not stuck by itself. Close never waits for that: it interrupts the write.
+		return append(append(out, "stalled "+name), late...)
+	}
 	return append(append(out, "hang "+name), late...)
+}
+
+// atGate tells whether a Write of any connection waits at a scripted gate.
+func (p *sessionPort) atGate() bool {
+	for _, c := range p.conns {
+		c.mu.Lock()
+		g := c.atGate
+		c.mu.Unlock()
+		if g {
+			return true
+		}
+	}
+	return false
 }
 
 func (p *sessionPort) startCall(tag string, f func(quit <-chan struct{}) error) []string {
@@ -389,7 +407,7 @@ func parseFilterList(s string) []string {
 
 func (p *sessionPort) exec(f []string) []string {
 	if p.dead != "" {
-		return []string{"dead after hang in " + p.dead}
+		return []string{"dead after " + p.dead + " did not return"}
 	}
 	if p.client == nil {
 		switch f[0] {
@@ -651,6 +669,10 @@ func (p *sessionPort) exec(f []string) []string {
 		}
 		return []string{fmt.Sprintf("backoff %dms", idle.Milliseconds())}
 	case "counters":
+		if p.atGate() {
+			// the sequence tokens may be held by the stalled writer (resend): the probe would wait for it
+			return []string{"counters stalled"}
+		}
 		v := mqtt.VerifCountersOf(p.client)
 		return []string{fmt.Sprintf("ctr acked=%d received=%d completed=%d a1=%d s1=%d a2=%d s2=%d q1=%d q2=%d tx=%d",
 			v.Acked, v.Received, v.Completed, v.AcceptN1, v.SubmitN1, v.AcceptN2, v.SubmitN2, v.Queue1, v.Queue2, v.Unordered)}
